@@ -37,6 +37,12 @@ class _ConsistentSet(object):
             self._sequence = sorted((hash(e) for e in set_sequence))
 
 
+class _ConsistentFrozenSet(_ConsistentSet):
+    """Same as _ConsistentSet, for frozensets: a distinct class, so that a
+    set and a frozenset holding the same items have different hashes.
+    """
+
+
 class _MyHash(object):
     """Class used to hash objects that won't normally pickle"""
 
@@ -153,6 +159,12 @@ class Hasher(Pickler):
         Pickler.save(self, _ConsistentSet(set_items))
 
     dispatch[type(set())] = save_set
+
+    def save_frozenset(self, set_items):
+        # same for frozensets: their iteration order depends on the hash seed
+        Pickler.save(self, _ConsistentFrozenSet(set_items))
+
+    dispatch[type(frozenset())] = save_frozenset
 
 
 class NumpyHasher(Hasher):
